@@ -289,7 +289,26 @@ inline std::vector<uint64_t> gen_positions(const KeyGenParams &p, Rng &cfg, Rng 
         else { for (size_t j = p.n - t; j < p.n; ++j) out[j] = out[j - 1] < U ? out[j - 1] + 1 : U; }
     }
 
+    // Duplicate runs at the two ends of the sequence, of every length relative to epsilon and far beyond it: a run that
+    // starts at position 0 (searches that widen to the left of a run run out of sequence) or ends at n - 1.
+    bool headrun = false, tailrun = false;
+    auto end_run_len = [&]() -> size_t {
+        switch (work.below(4)) { case 0: return std::max<size_t>(1, eps_len()); case 1: return (size_t) work.range(2 * eps + 3, 12 * eps + 40); case 2: return (size_t) work.range(20, 3000); default: return (size_t) work.range(1, 40); }
+    };
+    if (p.n >= 3 && !p.short_segments && work.chance(70)) {
+        size_t R = std::min(p.n - 1, end_run_len());
+        for (size_t j = 1; j < R; ++j) out[j] = out[0];
+        headrun = true;
+    }
+    if (p.n >= 3 && !p.short_segments && !tail && work.chance(70)) {
+        size_t R = std::min(p.n - 1, end_run_len());
+        for (size_t j = p.n - R; j < p.n; ++j) out[j] = out[p.n - 1];
+        tailrun = true;
+    }
+
     sig.clear();
+    if (headrun) sig += "headrun+";
+    if (tailrun) sig += "tailrun+";
     if (tail) sig += "tail+";
     if (stretched) sig += "stretch+";
     for (int m = 0; m < M_COUNT; ++m) if (used >> m & 1) { sig += motif_name(m); sig += '+'; }
